@@ -164,6 +164,8 @@ def run_bcast_cases(cases, res, stratum):
             obs = {}
             for k, r in (('&', x & y), ('|', x | y), ('^', x ^ y)):
                 obs[k] = (A.fmt_of(r), tuple(np.asarray(r.val).shape), lib.codes_of(r))
+            # the one-operand and mask forms on the same (possibly 3-D) array
+            inv = ~x; msk = x & ((1 << n) - 2); obs['~'] = (tuple(np.asarray(inv.val).shape), lib.codes_of(inv)); obs['m'] = (tuple(np.asarray(msk.val).shape), lib.codes_of(msk))
         except Exception as e:
             res.fail(c, 'C13: a bitwise operator on two arrays of broadcastable shapes raised %s' % lib.exc_name(e), got=str(e)[:200]); continue
         res.count(stratum, key=repr(c), nontrivial=True, n=3 * len(cxs) * len(cys)); res.sample(c)
@@ -172,6 +174,9 @@ def run_bcast_cases(cases, res, stratum):
         by = np.broadcast_to(np.array(cys, dtype=object).reshape(c['shy']), bx.shape)
         px = [int(v) & mask for v in bx.reshape(-1).tolist()]; py = [int(v) & mask for v in by.reshape(-1).tolist()]
         def back(u): return u - (1 << n) if (s and u >> (n - 1)) else u
+        ux_ = [int(v) & mask for v in cxs]
+        if obs['~'] != (tuple(c['shx']), [back(mask - u) for u in ux_]) or obs['m'] != (tuple(c['shx']), [back(u & (mask - 1)) for u in ux_]):
+            res.fail(c, 'C13: ~x / x & mask on an array of shape %s is not the bit pattern of every element' % (tuple(c['shx']),), expected=([back(mask - u) for u in ux_], [back(u & (mask - 1)) for u in ux_]), got=(obs['~'], obs['m'])); continue
         for k, f in (('&', lambda a, b: a & b), ('|', lambda a, b: a | b), ('^', lambda a, b: a ^ b)):
             want = [back(f(a, b)) for a, b in zip(px, py)]
             fz, shp, got = obs[k]
@@ -183,7 +188,7 @@ def bcast_cases(rng, count):
     for _ in range(count):
         n = rng.choice(WIDE + [2, 4, 8]); s = rng.random() < 0.5; sy = rng.random() < 0.5; lo, hi = S.fmt_bounds(s, n); ly, hy = S.fmt_bounds(sy, n)
         N = rng.choice([1, 2, 2, 3]); M = rng.choice([N, N, 1, 2, 3])
-        shx, shy = rng.choice([((N, 1), (1, M)), ((N, 1), (M,)), ((N,), (M, 1)), ((1, N), (M, 1))])
+        shx, shy = rng.choice([((N, 1), (1, M)), ((N, 1), (M,)), ((N,), (M, 1)), ((1, N), (M, 1)), ((N, 1, 1), (M,)), ((1, N, 1), (M, 1, 1))])
         cases.append({'x': [s, n, rng.choice([0, 1, n // 2])], 'y': [sy, n, rng.choice([0, 1, n // 2])], 'shx': list(shx), 'shy': list(shy),
                       'bx': [rng.choice([lo, hi, 0, -1 if s else 1, rng.randint(lo, hi), rng.randint(lo, hi)]) for _k in range(N)],
                       'by': [rng.choice([ly, hy, 0, -1 if sy else 1, rng.randint(ly, hy), rng.randint(ly, hy)]) for _k in range(M)]})
